@@ -258,6 +258,16 @@ func diff(src, dst *rib.RIB, explicitReplace map[spb.AFTType]bool, id *atomic.Ui
 
 	ops := NewReconcileOps()
 
+	// A network instance that exists only in dst is compared with an empty
+	// network instance so that the entries it contains are deleted.
+	for dstNI := range dstContents {
+		if _, ok := srcContents[dstNI]; !ok {
+			e := &aft.RIB{}
+			e.GetOrCreateAfts()
+			srcContents[dstNI] = e
+		}
+	}
+
 	for srcNI, srcNIEntries := range srcContents {
 		dstNIEntries, ok := dstContents[srcNI]
 		if !ok {
